@@ -302,7 +302,33 @@ def rule_zero_length_read(ctx, R="C14/zero-length-read"):
                   "a zero-length read is rejected for every kind of backing memory: an empty section/segment of a file-backed module is an error there but not ... (paths: %s)" % [[(show(a_)[:40], v_) for a_, v_ in c] for c in (dnf or [])][:2])
 
 
+def rule_strtab_window(ctx, R="C14/strtab-window"):
+    """The SONAME is the nul-terminated string at strtab+offset: the bytes searched for the terminator are everything from the name
+    to the end of the string table — no shorter (a cap makes a long, valid name look unterminated) and not a fixed count."""
+    b = ctx.body(R, MR + "::ModuleReader::read_name_from_strtab")
+    if b is None:
+        return
+    o = Origin(b)
+    rd = [bi for bi, t in b.calls(lambda c: c.endswith("ProcessMemory::read"))]
+    ctx.floor(R, "read in read_name_from_strtab", len(rd), 1)
+    for bi in rd:
+        a = o.call_args(bi)
+        st, ln = core(a[1]), core(a[2])
+        ok_s = (st[0] == "call" and st[1].split("::")[-1] in ("saturating_add", "checked_add", "wrapping_add") and {nosite(x) for x in st[2]} == {("param", 2), ("param", 4)}) or \
+               (st[0] == "bin" and st[1] in ("Add", "AddUnchecked", "AddWithOverflow") and {nosite(core(st[2])), nosite(core(st[3]))} == {("param", 2), ("param", 4)})
+        ctx.check(ok_s, R, "start=strtab+offset", b.where(bi), "the name is read at strtab_offset + name_offset", "the name is read at %s" % show(st)[:100])
+        ok_l = (ln[0] == "bin" and ln[1] in ("Sub", "SubUnchecked", "SubWithOverflow") and nosite(core(ln[2])) == ("param", 3) and nosite(core(ln[3])) == ("param", 4)) or \
+               (ln[0] == "call" and ln[1].split("::")[-1] in ("saturating_sub", "wrapping_sub") and nosite(core(ln[2][0])) == ("param", 3) and nosite(core(ln[2][1])) == ("param", 4))
+        ctx.check(ok_l, R, "len=rest-of-table", b.where(bi), "the terminator is searched up to the end of the string table (strtab_size - name_offset bytes)",
+                  "the bytes searched for the name's terminator are %s, not the rest of the string table" % show(ln)[:120])
+        dec = [x for x, t in b.calls(lambda c: (c.short or "").endswith("CStr::from_bytes_until_nul"))]
+        okd = len(dec) == 1 and nosite(strip(o.call_args(dec[0])[0])) == nosite(strip(o.call_expr(bi)))
+        ctx.check(okd, R, "until-first-nul", b.where(dec[0]) if dec else b.where(bi), "the name is the bytes of that whole buffer up to its first nul",
+                  "the name is not decoded from the whole buffer read by from_bytes_until_nul")
+
+
 def run(ctx):
+    rule_strtab_window(ctx)
     from rules import preds
     preds.run(ctx, PROPERTY, ['is_process_memory', 'dynamic-segment', 'dynamic-section'])   # the opaque predicates these rules lean on, against oracle tables
     rule_total(ctx)
